@@ -333,7 +333,7 @@ type c11Datum struct {
 }
 
 var c11AVals = []namedNode{
-	{"-", nil}, {"0", nInt(0)}, {"1", nInt(1)}, {"2", nInt(2)}, {"2^53-1", nInt(1<<53 - 1)}, {"1.5", nFloat(1.5)}, {"1.0", nFloat(1.0)},
+	{"-", nil}, {"0", nInt(0)}, {"1", nInt(1)}, {"2", nInt(2)}, {"2^53-1", nInt(1<<53 - 1)}, {"int64-min", nInt(math.MinInt64)}, {"int64-max", nInt(math.MaxInt64)}, {"-1", nInt(-1)}, {"1.5", nFloat(1.5)}, {"1.0", nFloat(1.0)},
 	{"NaN", nFloat(math.NaN())}, {"+Inf", nFloat(math.Inf(1))}, {`"a"`, nStr("a")}, {`"ab"`, nStr("ab")}, {"true", nBool(true)}, {"null", nNull()},
 	{"[]", nList()}, {"[1]", nList(nInt(1))}, {"[1,2]", nList(nInt(1), nInt(2))}, {"[2,1]", nList(nInt(2), nInt(1))}, {"{}", nMap()},
 }
@@ -465,7 +465,8 @@ func c11AtomSub() *engine.Sub {
 	}
 	return &engine.Sub{
 		Name: "atoms-truth",
-		Rule: "every comparison atom (5 operators x 6 selectors x 9 literals) and like atom (6 selectors x 6 patterns) as a top-level statement, on every datum {a in 18 values, b in 3, l in 2}: if the selector resolves, Match = PartialMatch = classical truth (same-kind numbers only; NaN/Inf ordering and == on NaN are don't-care); if required data is missing Match=false and PartialMatch=true; if optional data is missing both are true; non-trivial = selector resolves",
+		Repeat: true,
+		Rule: "every comparison atom (5 operators x 6 selectors x 9 literals) and like atom (6 selectors x 6 patterns) as a top-level statement, on every datum {a in 21 values, b in 3, l in 2}: if the selector resolves, Match = PartialMatch = classical truth (same-kind numbers only; NaN/Inf ordering and == on NaN are don't-care); if required data is missing Match=false and PartialMatch=true; if optional data is missing both are true; non-trivial = selector resolves",
 		Bound: func(string) string { return fmt.Sprintf("306 atoms x %d data", len(data)) },
 		Gen: func(tier string, emit func(any) bool) {
 			for _, a := range c11Atoms() {
